@@ -11,7 +11,7 @@ from Geometry3D import ConvexPolygon, ConvexPolyhedron, intersection
 
 from .. import core, lib, exact as X, alphabet as A, perm
 from ..core import Viol, Family
-from ..icheck import model_inter
+from ..icheck import faces_hash_ok, model_inter
 from . import C06, C03
 
 LEVEL = 'exploration'
@@ -252,12 +252,58 @@ def eval_stacked(fam, verts, fi):
     for sym, det in polyhedron_problems(b, e):
         viols.append(Viol('C09|stacked|%s' % sym, sc(), core.enc(e), det if isinstance(det, (str, int, float, list)) else lib.describe(det),
                           'body built on a face object taken from another body'))
+    # ... and A, whose face object was borrowed, is still the body it was (all normals outward, same vertices / edges / faces)
+    for sym, det in polyhedron_problems(a, K):
+        viols.append(Viol('C09|stacked|first-body-damaged-by-building-the-second|%s' % sym, sc(), core.enc(K), det if isinstance(det, (str, int, float, list)) else lib.describe(det),
+                          'body A after a body B was built on one of its face objects'))
     return 'stacked', viols
+
+
+def eval_cap(fam, verts, n, d):
+    """results of intersections fed back as inputs, mixed with exact faces: the body K is cut by the plane n.x = d; the computed
+    section polygon (whatever rounding noise it carries) together with the exactly given other faces of the half body
+    n.x <= d is a closed face set and must be accepted as that half body."""
+    K = X.Ph(verts)
+    p0 = tuple(F(d) * F(c, X.n2(n)) for c in n)
+    E = X.Pl(p0, n)
+    e, cell, skip = model_inter(E, K)
+    if skip:
+        return skip, []
+    if e is None or e[0] != 'ConvexPolygon':
+        return 'cap|no-section', []
+    eqs, ineqs = X.hrep(K)
+    hv = tuple(X.vertices(eqs, tuple(ineqs) + (X.clear(n, d),)))
+    if len(hv) < 4 or X.rank_pts(hv) != 3:
+        return 'cap|flat', []
+    H = X.Ph(hv)
+    if not faces_hash_ok(H):
+        return 'skip:hash-boundary', []
+    r = lib.call(intersection, lib.to_lib(E), lib.to_lib(K))
+    ok, why = lib.matches(r, e)
+    if not ok:
+        return 'cap|c02-violation', []      # C02's business
+    others = [cyc for nn, cyc in X.facets_of(H) if not all(X.dot(n, v) == d for v in cyc)]
+    sc = lambda: core.enc(('cap', verts, n, d))
+    viols = []
+    for order in (0, 1):
+        faces = [ConvexPolygon(tuple(lib.P(v) for v in cyc)) for cyc in others]
+        faces = ([r] + faces) if order == 0 else (faces + [r])
+        b = lib.call(lambda: ConvexPolyhedron(tuple(faces)))
+        if isinstance(b, lib.Raised):
+            return 'cap', [Viol('C09|cap|construct|raises:%s' % b.cls, sc(), core.enc(H), repr(b), 'computed section polygon + exact other faces of the half body')]
+        for sym, det in polyhedron_problems(b, H):
+            viols.append(Viol('C09|cap|%s' % sym, sc(), core.enc(H), det if isinstance(det, (str, int, float, list)) else lib.describe(det),
+                              'half body built from a computed section polygon and exact faces'))
+        if viols:
+            break
+    return 'cap', viols
 
 
 def eval_scene(fam, s):
     if s[0] == 'stacked':
         return eval_stacked(fam, s[1], int(s[2]))
+    if s[0] == 'cap':
+        return eval_cap(fam, s[1], s[2], s[3])
     if s[0] == 'polygon':
         return eval_polygon(fam, s[1])
     if s[0] == 'polyhedron':
@@ -366,6 +412,23 @@ def families(tier):
             self.total = len(sc)
             self._shards = [(i, min(i + 10, self.total)) for i in range(0, self.total, 10)]
     fams.append(_Stacked(st))
+    caps = []
+    for pose in A.poses(tier):
+        for nm in (('tetrahedron', 'box', 'cut-cube', 'skew-tetra') if tier == 'quick' else list(A.POLYHEDRA)):
+            K = pose(A.polyhedron(nm))
+            for n in ((1, 0, 0), (0, 1, 0), (0, 0, 1), (-1, 0, 0), (0, -1, 0), (1, 1, 0), (1, 2, 2), (2, -1, 3)):
+                vals = sorted({X.dot(n, v) for v in K[1]})
+                lo, hi = vals[0], vals[-1]
+                # (offsets such as 3/7 or 32/49 of the extent are not binary fractions: every computed section vertex carries its own
+                #  last-bit noise in the coordinate that is constant on the cutting plane, the exactly given faces do not)
+                for k in ((1, 2), (3, 8), (2, 3), (3, 7), (32, 49)) if tier == 'quick' else ((1, 2), (1, 4), (3, 4), (3, 8), (2, 3), (1, 5), (3, 7), (32, 49), (5, 11)):
+                    caps.append(('cap', K[1], n, lo + (hi - lo) * F(*k)))
+
+    class _Caps(_Stacked):
+        def __init__(self, sc):
+            _Stacked.__init__(self, sc)
+            self.name = 'cap'
+    fams.append(_Caps(caps))
     bodies = A.QUICK_BODIES
     pairs = [(a, b) for a in bodies for b in bodies]
     for pose in (A.poses(tier) if tier != 'quick' else [A.P0]):
